@@ -6,3 +6,5 @@ EXPLANATION = 'Per DW_CFA instruction: the decoder consumes the standard operand
 
 def run(rep, ctx):
     run_specs(rep, ctx, 'C06')
+    from ..guards import run_D10
+    run_D10(rep, ctx.g)
